@@ -19,6 +19,10 @@ SYM = {0: '.', 1: '', 2: '=', 3: '#', 1.5: ''}
 
 
 def used(g, n):
+    """valence in use; an aromatic atom spends one unit per sigma bond plus one for the pi system (so that
+    the atom shared by two fused aromatic rings, with three aromatic bonds, uses 4)"""
+    if g.nodes[n].get('aromatic'):
+        return sum(1 if d['order'] == 1.5 else d['order'] for _, _, d in g.edges(n, data=True)) + 1
     return sum(d['order'] for _, _, d in g.edges(n, data=True))
 
 
@@ -44,15 +48,15 @@ def dime_safe(g):
     return cyclomatic == len(rings)
 
 
-def gen_molecule(rng, max_heavy=12, p_arom=0.3, p_ring=0.25, charged=True, hetero=True, triple=True, lowest_valence=False):
+def gen_molecule(rng, max_heavy=12, p_arom=0.3, p_ring=0.25, charged=True, hetero=True, triple=True, lowest_valence=False, p_fused=0.0):
     for _ in range(200):
-        g = _gen_once(rng, max_heavy, p_arom, p_ring, charged, hetero, triple, lowest_valence)
+        g = _gen_once(rng, max_heavy, p_arom, p_ring, charged, hetero, triple, lowest_valence, p_fused)
         if g is not None and dime_safe(g):
             return g
     raise RuntimeError('molecule generator failed')
 
 
-def _gen_once(rng, max_heavy, p_arom, p_ring, charged, hetero, triple, lowest_valence=False):
+def _gen_once(rng, max_heavy, p_arom, p_ring, charged, hetero, triple, lowest_valence=False, p_fused=0.0):
     g = nx.Graph()
     nring = [0]
 
@@ -79,9 +83,30 @@ def _gen_once(rng, max_heavy, p_arom, p_ring, charged, hetero, triple, lowest_va
         if anchor is not None:
             g.add_edge(anchor, ring[0], order=1)
 
+    def add_fused_ring():
+        """ortho-fuse another aromatic six-ring onto an unsubstituted aromatic C-C ring bond (naphthalene, quinoline,
+        anthracene, phenanthrene ...): all ring bonds, the shared one included, are aromatic"""
+        bonds = [(a, b) for a, b, d in g.edges(data=True) if d['order'] == 1.5
+                 and all(g.nodes[x]['element'] == 'C' and g.degree(x) == 2 for x in (a, b))]
+        if not bonds:
+            return False
+        a, b = rng.choice(bonds)
+        kinds = [('C', 0)] * 4
+        if rng.random() < 0.3:
+            kinds[rng.randrange(4)] = ('N', 0)
+        rid = nring[0]
+        nring[0] += 1
+        new = [add_atom(k, aromatic=True, ring=rid) for k in kinds]
+        for x, y in zip([a] + new, new + [b]):
+            g.add_edge(x, y, order=1.5)
+        return True
+
     target = rng.randint(1, max_heavy)
     if rng.random() < p_arom and target >= 6:
         add_arom_ring(None)
+        while rng.random() < p_fused and len(g) + 4 <= max_heavy + 4 and nring[0] < 3:
+            if not add_fused_ring():
+                break
     else:
         add_atom()
     tries = 0
@@ -94,6 +119,8 @@ def _gen_once(rng, max_heavy, p_arom, p_ring, charged, hetero, triple, lowest_va
         r = rng.random()
         if r < p_arom * 0.5 and len(g) + 6 <= max_heavy + 4:
             add_arom_ring(a)
+            if rng.random() < p_fused and len(g) + 4 <= max_heavy + 4:
+                add_fused_ring()
             continue
         if r < p_arom * 0.5 + p_ring * 0.5:
             if g.nodes[a]['aromatic']:
